@@ -28,9 +28,9 @@ def _build_key(parent_vertex: Vertex, key: Union[int, slice, Symbol, str, tuple,
         return ListIndexVertex(parent_vertex, key)
     elif isinstance(key, slice):
         return ListSliceVertex(parent_vertex, key)
-    elif wildcard == key:
+    elif key is wildcard:
         return ListWildcardVertex(parent_vertex)
-    elif generic_wildcard == key:
+    elif key is generic_wildcard:
         return ListGenericWildcardVertex(parent_vertex)
     elif isinstance(key, str):
         return KeyVertex(parent_vertex, key)
